@@ -558,7 +558,9 @@ def c06_layouts(tier, seed):
             (("const", pats[1]), False, [], "named constant, struct without fields"),
             (("lit", pats[3], "dec"), True, [lowf], "decimal literal top bit only, legacy `:` syntax"),
         ]
-        forms += [(("lit", pats[1] | 1, "hex"), "via_macro", [lowf], "declaration stamped out by macro_rules!, literal default passed as $d:expr"),
+        ovl = [Field("all", T_uint(N), [(0, N)], None, "rw"), Field("low", T_bool(), [(0, 1)], None, "rw")]
+        forms += [(("lit", pats[1] | 1, "hex"), False, ovl, "default with two overlapping writable fields (no builder)"),
+                  (("lit", pats[1] | 1, "hex"), "via_macro", [lowf], "declaration stamped out by macro_rules!, literal default passed as $d:expr"),
                   (("const", pats[3] | 1), "via_macro", [], "declaration stamped out by macro_rules!, named-constant default passed as $d:expr"),
                   (("lit", pats[1] | 1, "bin"), False, [lowf], "binary literal default"),
                   (("lit", pats[0], "hex_"), False, [], "hex literal with underscores, all ones"),
@@ -616,6 +618,7 @@ def h_c06(L):
         b.append(f'assert!({H.raw_of(L, "<" + S + " as Default>::default()")} == {d:#x}u128, "VERIF Default::default()");')
         b.append(f"let n: Option<{S}> = {S}::new().vas_opt();")
         b.append(f'if let Some(n) = n {{ assert!({H.raw_of(L, "n")} == {d:#x}u128, "VERIF new()"); }}')
+        b.append('assert!(n.is_some(), "VERIF the (deprecated) new() is not generated although a default is declared");')
         b.append('vcover!(n.is_some(), "VERIF-REACH-new-exists");')
         funcs += [f"{S}::DEFAULT", f"{S}::default", f"{S}::new"]
     b.append("vend!();")
@@ -1071,8 +1074,23 @@ def h_untouched(L, f):
     return Harness(f"untouched_{f.name}", "\n".join(b), "pass", "untouched_bits", "C12", f.name, ())
 
 
-def bit_keyword_list_layouts():
+def list_syntax_layouts():
+    """range lists with a trailing comma, split over two attributes, and with up to 16 entries"""
     Ls = []
+    for W in (32, 64, 24, 128):
+        Ls.append(Layout(W, [Field("f", T_uint(8), [(0, 4), (8, 4)], None, "rw", list_split=1), Field("g", T_uint(2), [(16, 1), (18, 1)], None, "rw", list_trailing_comma=True),
+                             Field("h", T_uint(4), [(20, 2), (12, 2)], (2, 2, True), "rw", list_trailing_comma=True)], tag=f"lists split over two attributes / with trailing commas on u{W}"))
+        Ls.append(Layout(W, [Field("f", T_uint(12), [(1, 3), (5, 3), (9, 3), (13, 3)], None, "rw", list_split=2), Field("a", T_uint(4), [(W - 6, 1), (W - 4, 1), (W - 8, 1), (W - 2, 1)], None, "rw", list_split=3, form="bit_list")], tag=f"four-entry lists split 2+2 and 3+1 on u{W}"))
+    # long lists: Morton codes and friends
+    Ls.append(Layout(64, [Field("coord", T_uint(16), [(2 * k, 1) for k in range(16)], (2, 1, True), "rw")], tag="Morton code: 16 single-bit entries, interleaving array of two on u64"))
+    Ls.append(Layout(128, [Field("m", T_uint(16), [(4 * k + 1, 1) for k in range(16)], None, "rw"), Field("n", T_uint(12), [(4 * k, 1) for k in range(12)], (2, 64, True), "rw")], tag="lists of 16 and 12 single-bit entries on u128"))
+    Ls.append(Layout(32, [Field("m", T_uint(10), [(31 - 3 * k, 1) for k in range(10)], None, "rw")], tag="descending list of 10 single bits with gaps on u32"))
+    Ls.append(Layout(100, [Field("m", T_uint(27), [(3 * k, 3) if k % 2 else (3 * k + 40, 3) for k in range(9)], None, "rw")], tag="nine 3-bit entries on u100"))
+    return Ls
+
+
+def bit_keyword_list_layouts():
+    Ls = list_syntax_layouts()
     Ls.append(Layout(32, [Field("type", T_uint(8), [(0, 4), (8, 4)], None, "rw", raw_ident=True), Field("in", T_uint(2), [(16, 1), (18, 1)], (3, 4, True), "rw", raw_ident=True, form="bit_list")], tag="raw-identifier fields declared with range lists on u32"))
     Ls.append(Layout(24, [Field("v", T_uint(8), [(0, 4), (8, 4)], (3, 0, True), "rw"), Field("w", T_uint(2), [(20, 1), (22, 1)], (2, 0, True), "rw")], tag="range-list arrays with stride 0 on u24"))
     for W in (8, 32, 24, 128):
@@ -1792,6 +1810,21 @@ def c09_candidates(tier):
         C.append((L, "huge-stride-wraps"))
         L = Layout(W, [Field("f", T_uint(2), [(0, 1), (2, 1)], (3, 200, True), "rw", raw_attr="#[bits([0, 2], rw, stride = 9223372036854775808)]")], tag=f"array of lists with stride 2^63 on u{W}")
         C.append((L, "huge-stride-wraps"))
+    # a list with a gap whose widths add up to exactly N while one entry lies above bit N-1
+    for N in (24, 12, 48, 100):
+        st = storage_bits(N)
+        hi_n = st - N
+        add(N, [Field("f", T_uint(N), [(0, N - hi_n), (st - hi_n, hi_n)], None, "rw")], "list-item-beyond-base-width", f"u{N}-wide list [0..={N - hi_n - 1}, {st - hi_n}..={st - 1}] on u{N}")
+    # the same kinds of invalid fields WITHOUT any access specifier (reserved fields)
+    for W in (32, 24):
+        add(W, [Field("reserved", T_uint(8), [(W - 4, 8)], None, "")], "non-array-field-beyond-base-width", f"reserved u8 straddling the top of u{W}, no access specifier")
+        add(W, [Field("reserved", T_bool(), [(W, 1)], None, "")], "non-array-field-beyond-base-width", f"reserved bool at bit {W} of u{W}, no access specifier")
+        add(W, [Field("reserved", T_uint(5), [(0, 6)], None, "")], "type-width-mismatch", f"reserved u5 over 6 bits of u{W}, no access specifier")
+        add(W, [Field("reserved", T_bool(), [(2, 2)], None, "")], "type-width-mismatch", f"reserved bool over 2 bits of u{W}, no access specifier")
+        add(W, [Field("reserved", T_uint(4), [(0, 4)], (2, 3, True), "")], "stride-less-than-width", f"reserved [u4;2] stride 3 on u{W}, no access specifier")
+        add(W, [Field("reserved", T_uint(4), [(0, 4)], (W // 4 + 1, 4, False), "")], "array-beyond-storage-width", f"reserved [u4;{W // 4 + 1}] on u{W}, no access specifier")
+        L = Layout(W, [Field("reserved", T_uint(2), [(0, 1), (4, 1)], (2, 2, False), "")], tag=f"reserved array of lists without stride on u{W}, no access specifier")
+        C.append((L, "list-array-without-stride"))
     # 5. degenerate arrays
     for W in (8, 32):
         L = Layout(W, [Field("f", T_uint(4), [(0, 4)], (1, 4, False), "rw")], tag=f"[u4;1] on u{W}")
@@ -1830,6 +1863,7 @@ def c09_accept_corpus(tier, seed):
         if W >= 8:
             Ls.append(Layout(W, [Field("f", T_uint(4), [(0, 4)], (2, 4, True), "rw")], tag=f"stride == width on u{W}"))
             Ls.append(Layout(W, [Field("f", T_uint(6), [(1, 6)], None, "r"), Field("g", T_int(8), [(W - 8, 8)], None, "w"), Field("n", T_bool(), [(0, 1)], None, "")], tag=f"access r / w / none on u{W}"))
+    Ls += list_syntax_layouts()
     k = 1 if tier != "quick" else 4
     for fn in (c01_layouts, c02_layouts, c03_layouts, c04_layouts, c05_layouts, c06_layouts, c08_layouts, c12_layouts, c13_layouts, c16_layouts):
         ls = fn("quick", 0)
@@ -2077,6 +2111,8 @@ def c10_candidates(tier, seed):
         add1(N, [0, 1, n + 3], "conditional", "gated-discriminant-too-large", f"u{N}: conditional with a cfg-gated (inactive) variant whose discriminant is too large", cfg=[None, None, "off"])
         add1(N, [0, 1, n], "conditional", "gated-discriminant-too-large", f"u{N}: conditional with a cfg-gated (active) variant whose discriminant is 2^N", cfg=[None, None, "on"])
         add1(N, list(range(n)) + [n], "conditional", "gated-discriminant-too-large", f"u{N}: 2^N+1 variants, the gated extra one too large", cfg=[None] * n + ["on_doc"])
+    add1(2, [0, 1, 2, 3, 3, 4], "conditional", "discriminant-too-large", "u2: conditional with six variants, the LAST one (declared after the first 2^N) too large", cfg=[None, None, None, "on", "off", None])
+    add1(1, [0, 1, 1, 2], "conditional", "discriminant-too-large", "u1: conditional with four variants, the last one too large", cfg=[None, "on", "off", None])
     # variants without an explicit discriminant (rustc would number them previous + 1)
     for (bits, names_discr, implicit, ex) in ((2, [0, 1, 2, 3], ["V1", "V2", "V3"], "true"), (2, [2, 0, 1, 3], ["V2"], "true"), (4, [8, 2, 3, 4], ["V2", "V3"], None),
                                               (3, [0, 1, 2], ["V0", "V1", "V2"], "false"), (1, [0, 1], ["V1"], "true"), (8, [5, 6], ["V1"], None)):
@@ -2258,7 +2294,11 @@ def c19_layouts(tier, seed):
     Ls.append(mk(32, [("uint", [(25, 7), (7, 5)], 12), ("optenum", 0, 8), ("uint", 20, 1)], "list field, native-storage Option<enum>, u1 on u32"))
     Ls.append(mk(24, [("uint", 0, 9), ("int", 16, 8), ("bool", 23, 1)], "arbitrary base u24"))
     Ls.append(mk(9, [("uint", 0, 9), ("bool", 8, 1), ("enum", 1, 1)], "arbitrary base u9 incl. 1-bit enum"))
+    # more than 16 fields (17 here; 20 in the thorough tier)
+    L17 = Layout(32, [Field(f"b{i}", T_bool() if i % 4 else T_uint(1), [(i, 1)], None, "rw") for i in range(16)] + [Field("tail", T_uint(8), [(24, 8)], None, "r")], debug=True, tag="17 fields on u32")
+    Ls.append(L17)
     if tier != "quick":
+        Ls.append(Layout(64, [Field(f"n{i}", T_uint(3), [(3 * i, 3)], None, "rw") for i in range(20)], debug=True, tag="20 u3 fields on u64"))
         Ls.append(mk(64, [("uint", 0, 64), ("int", 0, 64), ("int", 32, 32), ("uint", 1, 63), ("bool", 63, 1)], "u64 wide fields"))
         Ls.append(mk(128, [("uint", 0, 128), ("int", 0, 128), ("uint", 27, 100), ("bool", 127, 1)], "u128 wide fields"))
         Ls.append(mk(65, [("uint", 0, 65), ("int", 1, 64), ("bool", 64, 1)], "arbitrary base u65"))
